@@ -1,14 +1,22 @@
 """C16 - a random virtual ECU is fully determined by its seed and arguments.
 
+(P)  the Lean model of CPython's set for ints (Model/PySet.lean) against the real `set` of the running interpreter:
+     iteration order, len and table size after every operation - exhaustively for all short add/discard sequences over
+     small colliding universes and all binary operations on all pairs of small sets, sampled for random / adversarial /
+     randomize-shaped programs (harness/c16_pyset.py); the default `optional_services` (a list made from a set of IntEnum
+     members) is the list the model computes.
 (C1) the real `RandomUDSServer.randomize` runs with `RNG` replaced by a recording subclass; the Lean model
-     (Model/Randomize.lean) fed with the recorded draws / choices / set iteration orders must reproduce
-     `server.services` exactly and consume exactly the recorded number of draws; the recorded stream must be the
-     stream of `random.Random(str(seed))` (nothing but the seed went into the generator); a scripted RNG enumerates
-     every Boolean draw stream on small session universes.  The executable well-formedness predicate (Lean) is
-     evaluated on the implementation's model.
+     (Model/Randomize.lean) fed with the recorded draws and choices ALONE - the set iteration order is computed by the
+     PySet model - must reproduce `server.services` exactly, consume exactly the recorded number of draws and go through
+     the set orders seen in the running frame; the older oracle model fed with the recorded orders is kept as a
+     cross-check; the recorded stream must be the stream of `random.Random(str(seed))` (nothing but the seed went into
+     the generator); a scripted RNG enumerates every Boolean draw stream on small session universes.  The executable
+     well-formedness predicate (Lean) is evaluated on the implementation's model.  Servers are built directly and
+     through the real command line (parser -> RngVirtualECUConfig -> RngVirtualECU._server()); the arguments that reach
+     the server must be the ones the user wrote, in that order.
 (C2) transcripts (model dump + answers to a request history through `UDSServerTransport.handle_request`) of the same
-     seed / arguments from separate interpreter processes with different PYTHONHASHSEED, import orders and clock
-     bases must be byte-identical except security-access seed bytes.
+     seed / arguments - given as Python values and as command-line text - from separate interpreter processes with
+     different PYTHONHASHSEED, import orders and clock bases must be byte-identical except security-access seed bytes.
 """
 import json
 import os
@@ -33,10 +41,17 @@ ASSUMPTIONS = [
     "session_transitions: IndexError / wrap-around; outside the model)",
     "reachability / return-to-default are stated for configurations whose mandatory services contain "
     "DiagnosticSessionControl (the default); without it the user has asked for sessions no request can enter",
-    "CPython: iteration order of a set of small ints is a function of the operations performed on it (ints hash to "
-    "themselves); the order used by `for session in level_sessions` is read from the running frame and fed to the model",
+    "Model/PySet.lean transcribes CPython 3.12 Objects/setobject.c (probe sequence, freeslot, resize / merge / difference "
+    "rules) for ints 0 <= n < 2^61-1, where hash(n) = n; the C source is not on this machine, so the transcription is "
+    "validated against the running interpreter on every run (part P) - another interpreter with another table strategy "
+    "shows up there as a broken tie; sets of other element types do not occur in randomize (the default optional_services "
+    "is a set of IntEnum members whose hash is checked to be the int hash on the live enum)",
+    "the two iterated sets of randomize (level_sessions, next_level_sessions) are modelled as PySets; "
+    "session_transitions[i] is only measured (len), extended and sorted, and is kept as a sorted list",
     "random.Random (Mersenne Twister) seeded with a str is a function of that str; floats compared with libm pow on both sides",
-    "a theorem cannot see another process's hash seed: cross-process determinism is carried by the transcript comparison",
+    "a theorem cannot see another process: that randomize has no input besides (arguments, draw stream, choice stream) is a "
+    "theorem about the model; that the code consults nothing else (request handlers, argument parsing, module state) is "
+    "carried by the draw replay and the cross-process transcript comparison over the listed environments",
 ]
 
 HARNESS = Path(__file__).resolve().parent.parent
@@ -1068,21 +1083,33 @@ def replay(ctx, case):
 
 
 MANIFEST = {
-    "level_text": ("Lean 4 theorems over a model of RandomUDSServer.randomize in which every rng.random() < p is the next "
-                   "element of an arbitrary draw stream, rng.choice an arbitrary index oracle and the set iteration order an "
-                   "arbitrary oracle: for all streams (i.e. all seeds) mandatory sessions and services are present, the default "
-                   "session is present, every offered session is reachable from the default session through "
-                   "DiagnosticSessionControl sub-functions and returns to it in one step, every DSC sub-function is an offered "
-                   "session, the level loop terminates. Determinism proper is tied to the code by (C1) replaying the draws recorded "
-                   "from the real randomize (recording RNG subclass) through the model - exact reproduction of server.services, "
-                   "draw and choice counts, provenance of the stream from str(seed) alone, plus a scripted RNG enumerating every "
-                   "Boolean draw stream on small universes - and (C2) byte-identical transcripts (model + answers to request "
-                   "histories via UDSServerTransport.handle_request) from separate interpreter processes with different "
-                   "PYTHONHASHSEED, import orders and clock bases, security-access seeds masked."),
+    "level_text": ("Lean 4 theorems over (1) an executable model of CPython 3.12's set for ints (open addressing, linear probes, "
+                   "perturbation, freeslot reuse, fill/used counters, resize, merge, difference; Model/PySet.lean): the recurrence "
+                   "i -> 5i+1 mod 2^k visits every residue, hence the probe loops terminate on any table with an unused entry; the "
+                   "table invariant (power-of-two size, exact counters, load factor < 3/5, every key where its lookup stops) holds "
+                   "after any sequence of add / discard / update / set(iterable) / copy / | / |= / - / -= / resize; iteration yields "
+                   "every element exactly once; each operation has the membership law of its mathematical counterpart; and (2) a "
+                   "model of RandomUDSServer.randomize that is a function of the arguments, the draw stream and the choice stream "
+                   "alone (the iteration order of the code's sets is computed by (1)): it is an instance of the oracle model, so for "
+                   "all streams (i.e. all seeds) mandatory sessions and services are present, the default session is present, every "
+                   "offered session is reachable from the default session through DiagnosticSessionControl sub-functions and returns "
+                   "to it in one step, every DSC sub-function is an offered session; it reads only the prefix of the streams it "
+                   "reports as consumed (streams agreeing on that prefix give the same model). Tied to the code by (P) a differential "
+                   "test of the set model against the interpreter's set, exhaustive on small universes; (C1) replaying the draws "
+                   "recorded from the real randomize through the model with NO recorded set order - exact reproduction of "
+                   "server.services, draw / choice counts and the set orders seen in the frame, provenance of the stream from "
+                   "str(seed) alone, a scripted RNG enumerating every Boolean draw stream on small universes, servers built directly "
+                   "and through the real command line; (C2) byte-identical transcripts (model + answers to request histories via "
+                   "UDSServerTransport.handle_request) from separate interpreter processes with different PYTHONHASHSEED, import "
+                   "orders and clock bases, arguments given as values and as command-line text, security-access seeds masked."),
     "level_note": ("Trusted: Lean kernel (axioms propext, Quot.sound, Classical.choice), the generated tables, the harness, CPython's "
-                   "random.Random and int-set iteration (recorded, not modelled), libm pow. Partial: a theorem cannot see another "
-                   "process's hash seed - that half is a differential check over the listed environments; reachability assumes "
-                   "DiagnosticSessionControl among the mandatory services and session ids below 0x7F."),
-    "technique": "Lean 4 proof (invariants over folds, well-founded level loop) + recorded-draw replay and cross-process transcript comparison",
+                   "random.Random, libm pow; the set model is a transcription validated against the running interpreter, not derived "
+                   "from the C source. Partial: a theorem cannot see another process - that the code consults nothing but seed and "
+                   "arguments outside randomize (request handlers, argument parsing) is a differential check over the listed "
+                   "environments; reachability assumes DiagnosticSessionControl among the mandatory services and session ids below "
+                   "0x7F; set elements below 2^61-1."),
+    "technique": ("Lean 4 proof (full-period lemma, probe-loop invariants, simulation of the set-order-free model by the oracle model, "
+                  "invariants over folds, well-founded level loop) + differential test of the set model + recorded-draw replay "
+                  "without recorded order + cross-process transcript comparison incl. the command-line path"),
     "design_ref": "DESIGN.md section 7, C16",
 }
